@@ -215,8 +215,12 @@ func Parse(input string) (*Tree, error) {
 // Parse begins parsing, returning an error, if any.
 func (t *Tree) Parse() error {
 	go t.lex.tokenize()
-	// On a parse error tokens remain unread; release the lexer goroutine.
-	defer t.lex.stop()
+	// On a parse error tokens remain unread: release the lexer goroutine, and
+	// do not return before it is gone.
+	defer func() {
+		t.lex.stop()
+		<-t.lex.exited
+	}()
 	for {
 		n, err := t.parse()
 		if err != nil {
